@@ -56,6 +56,27 @@ def drive(rec, programs, part, nparts, ts_small, ts_big, every_big):
                               {"program": prog, "t": t, "mask": mask, "step": i, "what": why})
             else:
                 ok += 1
+        # the linear prefix of the program once more with every initial coefficient multiplied by a constant that takes the largest
+        # intermediate value to the top of the range of the representation (int64 for coefficient vectors and NTT120 inputs;
+        # 2^40 for FFT64, far inside its budget so that results stay exact)
+        k, top = progs.linear_prefix(prog)
+        if k >= 2:
+            lim = ((1 << 63) - 1) if prog["mod"] != "FFT64" else (1 << 40)
+            smax = lim // top
+            scale = smax if rng.random() < 0.6 else rng.randrange(max(1, smax >> 12), smax + 1)
+            t = rng.choice(ts_small)
+            mask = rng.choice([MASK_NONE, MASK_GENERIC]) if prog["mod"] == "FFT64" else MASK_NONE
+            bad, nsteps = progs.run_program(L, prog, t, mask, rng, fill=rng.choice([0x5C, 0xFF, 0x00]), off=rng.choice([0, 8, 16, 24]),
+                                            progress=rec.progress, scale=scale, nsteps=k)
+            steps += nsteps
+            rec.case(("scaled", prog["mod"], mask, min(k, 8)))
+            if bad:
+                i, why = bad
+                rec.violation("program step %d (%s) at N=%d, mask=%d, initial data times %d: %s" % (
+                    i, progs.describe(prog["steps"][i]), prog["N0"] * t, mask, scale, why),
+                    {"program": prog, "t": t, "mask": mask, "step": i, "what": why, "scale": scale})
+            else:
+                ok += 1
     rec.data["ok"] = ok
     rec.data["steps"] = steps
 
